@@ -9,9 +9,14 @@ B2  every complete design of the replayable profiles is emitted by TLC with the 
     EOL, padding, operator settings) and designed by the real designed_network in the configuration's mode; the
     designed settings must equal the expectation.  The same designs, with the design load propagated through the real
     elements, are judged a second time by Trace_DesignPower (clause names, DesignLoadReproduces).
+    The grid includes a delta_power_range whose bounds are not multiples of its step ([-1.3, 2.2, 0.5]: round, THEN
+    clamp) and profiles designed with out_voa_auto models (an amplifier that optimises its own output VOA followed by
+    further amplifiers): there the model's admissible designs differ only by the VOA, so gain - voa and dp - voa are
+    compared and Closure on the next amplifier is TLC's.
 B3  (primary) every OMS of every shipped network is designed in power mode and in gain mode under run-time recorders
     and judged by Trace_DesignPower on integer projections: Closure, the rule, the reduction, kept operator settings,
-    p_max and the reproduction law at every amplifier and egress ROADM.
+    p_max and the reproduction law at every amplifier and egress ROADM.  Three networks are also designed with placeholder
+    amplifiers and the library option out_voa_auto switched on for every model.
 """
 import inspect
 import json
